@@ -292,7 +292,8 @@ def run_case(case):
                     tr, w, rd, bwd = J(lambda k, t, a: req.edit(k, t, a))(jax.random.key(seed), cur, ad)
                 obs = _obs_trace(tr, atys, rty, universe, stored)
                 w = gfi._to_int(w)
-                if case.get("retag") and kind == "upd" and any(t == "N" for t in op[5]):
+                if case.get("retag") and kind == "upd" and any(t == "N" for t in op[5]) and not case.get("_has_switch"):
+                    # (a switch index tagged UnknownChange is the documented resampling trigger: excepted)
                     # C08: an honest NoChange tag must not change the edit (switch indices excepted)
                     ad_u = _tags_to_argdiffs(aj, ["U"] * len(atys))
                     tr_u, w_u, _, bwd_u = (gf.edit(jax.random.key(seed), cur, req, ad_u) if stored is not None
